@@ -31,6 +31,125 @@ type moveCase struct {
 		Down    string `json:"down"`
 		Deleted bool   `json:"deleted"`
 	} `json:"edges"`
+	Copies [][]string `json:"copies"` // duplicate: the downward paths of the subtree, one new node each
+}
+
+// dupCanon: a node with what it holds and the copies below it, in a canonical text form
+func dupCanon(pts []string, kids []string) string {
+	sort.Strings(pts)
+	sort.Strings(kids)
+	return "{" + strings.Join(pts, ";") + " [" + strings.Join(kids, ",") + "]}"
+}
+
+func dupPointRepr(ps data.Points, skipDesc bool) []string {
+	var r []string
+	for _, p := range ps {
+		if p.Type == data.PointTypeTombstone || p.Type == data.PointTypeNodeType || (skipDesc && p.Type == data.PointTypeDescription) {
+			continue
+		}
+		r = append(r, fmt.Sprintf("%s|%s|%d|%v|%s|%d", p.Type, p.Key, p.Time.UnixNano(), p.Value, p.Text, p.Tombstone))
+	}
+	return r
+}
+
+// duplicate: client.DuplicateNode against Store!DupCopies.  Returns "" or what differs; diverged = the call
+// did not return within the bound
+func dupCase(s *storeSession, conc *sConc, c moveCase, nodes []string) (what string, diverged bool) {
+	known := map[string]bool{s.in.root.ID: true}
+	for i, n := range nodes {
+		known[conc.id(n)] = true
+		if n != "R" {
+			// something to tell the nodes apart by
+			client.SendNodePoint(s.nc, conc.id(n), data.Point{Type: conc.prefix + "mark", Key: "0", Time: time.Now(), Value: float64(i + 1), Text: n}, true)
+		}
+	}
+	newID := conc.id(c.Op.New)
+	if c.Op.New == "R" {
+		newID = s.in.root.ID
+	}
+	if pre, err := client.GetNodes(s.nc, newID, "all", "", true); err == nil {
+		for _, ne := range pre {
+			known[ne.ID] = true
+		}
+	}
+	done := make(chan error, 1)
+	go func() { done <- client.DuplicateNode(s.nc, conc.id(c.Op.N), newID, "driver") }()
+	var err error
+	select {
+	case err = <-done:
+	case <-time.After(3 * time.Second):
+		return "", true
+	}
+	if c.Reply == "diverges" {
+		return "the call returned (" + fmt.Sprint(err) + "), the as-coded model says it never does", false
+	}
+	if (err != nil) != (c.Reply == "err") {
+		return fmt.Sprintf("DuplicateNode returned %v, specification says reply %q", err, c.Reply), false
+	}
+	if err != nil {
+		return "", false
+	}
+	// what the specification says the copy is
+	var expect func(path []string) string
+	expect = func(path []string) string {
+		var kids []string
+		for _, q := range c.Copies {
+			if len(q) == len(path)+1 && strings.Join(q[:len(path)], "/") == strings.Join(path, "/") {
+				kids = append(kids, expect(q))
+			}
+		}
+		orig, _ := client.GetNodes(s.nc, "all", conc.id(path[len(path)-1]), "", true)
+		var pts []string
+		if len(orig) > 0 {
+			pts = dupPointRepr(orig[0].Points, len(path) == 1)
+		}
+		if len(path) > 1 {
+			// the edge points of the placement the walk came through
+			up, _ := client.GetNodes(s.nc, conc.id(path[len(path)-2]), conc.id(path[len(path)-1]), "", false)
+			if len(up) > 0 {
+				pts = append(pts, dupPointRepr(up[0].EdgePoints, false)...)
+			}
+		}
+		return dupCanon(pts, kids)
+	}
+	var observe func(ne data.NodeEdge, top bool) string
+	observe = func(ne data.NodeEdge, top bool) string {
+		ch, _ := client.GetNodes(s.nc, ne.ID, "all", "", false)
+		var kids []string
+		for _, k := range ch {
+			kids = append(kids, observe(k, false))
+		}
+		pts := dupPointRepr(ne.Points, top)
+		if !top {
+			pts = append(pts, dupPointRepr(ne.EdgePoints, false)...)
+		}
+		return dupCanon(pts, kids)
+	}
+	below, _ := client.GetNodes(s.nc, newID, "all", "", false)
+	var tops []data.NodeEdge
+	for _, ne := range below {
+		if !known[ne.ID] {
+			tops = append(tops, ne)
+		}
+	}
+	if len(tops) != 1 {
+		return fmt.Sprintf("%d new nodes below the new parent, expected one copy", len(tops)), false
+	}
+	if d, _ := tops[0].Points.Text(data.PointTypeDescription, "0"); !strings.HasSuffix(d, " (Duplicate)") {
+		return fmt.Sprintf("the copy's description is %q, expected the duplicate marker", d), false
+	}
+	if want, got := expect([]string{c.Op.N}), observe(tops[0], true); want != got {
+		return "the copy differs from the subtree: copy " + got + ", subtree " + want, false
+	}
+	hashFailTap.take()
+	if err := client.AdminStoreVerify(s.nc); err != nil {
+		return "store verification failed: " + err.Error(), false
+	}
+	time.Sleep(50 * time.Millisecond)
+	if found := hashFailTap.take(); len(found) > 0 {
+		return fmt.Sprintf("store verification after the duplicate reports %v", found[:1]), false
+	}
+	return "", false
 }
 
 func init() {
@@ -54,6 +173,7 @@ func init() {
 		nodes := []string{"A", "B", "C", "R"}
 		base := time.Now().Add(-time.Hour).Truncate(time.Second)
 		evals := 0
+		dupTotal, dupAgree, dupDiverged := 0, 0, 0
 		for i, c := range cases {
 			if s.dead {
 				break
@@ -94,6 +214,30 @@ func init() {
 					}
 				}
 				return m
+			}
+			if c.Op.K == "dup" {
+				what, diverged := dupCase(s, conc, c, nodes)
+				evals++
+				dupTotal++
+				if diverged {
+					// the instance is being flooded with copies: leave it
+					s.dead = true
+					s.close()
+					if s, err = newStoreSession(); err != nil {
+						return err
+					}
+					if c.Reply == "diverges" {
+						dupDiverged++
+					} else {
+						what = "DuplicateNode did not return within 3 s"
+					}
+				}
+				if what == "" {
+					dupAgree++
+				} else {
+					res.fail(Failure{Finding: "dup:duplicate-node", What: what, Case: map[string]any{"case": i, "op": c.Op, "prefix": conc.prefix}})
+				}
+				continue
 			}
 			before := dump()
 			s.doFence("ep")
@@ -178,6 +322,9 @@ func init() {
 			}
 		}
 		evals++
+		res.Extra["duplicate_cases"] = dupTotal
+		res.Extra["duplicate_cases_agreeing"] = dupAgree
+		res.Extra["duplicate_cases_that_never_return_as_modelled"] = dupDiverged
 		res.Evaluations = evals
 		res.Traces = len(cases)
 		res.DistinctNontrivial = len(cases)
